@@ -1,12 +1,15 @@
-(* C13 — correspondence: one case = the user classes (created after the three root
-   classes, bases by absolute index), the index of the class whose instance is
-   used, and the history of (operation, observation recorded from the implementation). *)
+(* C13 — correspondence: one case =
+     the user classes h1 (created after the three root classes, bases by absolute index),
+     an "early" history on a fresh instance of class k (may be empty),
+     the user classes h2 created only after that history (may be empty),
+     the main history on a fresh instance of class c,
+   each history as (operation, observation recorded from the implementation). *)
 From Coq Require Import ZArith List Bool.
 From TV Require Import Common.Harness C13.Model C13.Law.
 Import ListNotations.
 Open Scope Z_scope.
 
-Definition case := (list classdef * nat * list (op * obs))%type.
+Definition case := (list classdef * nat * list (op * obs) * list classdef * nat * list (op * obs))%type.
 
 Definition outcome_eqb (a b : outcome) : bool :=
   match a, b with
@@ -32,9 +35,14 @@ Fixpoint corr_hist (pt : ptab) (i : Z) (s : state) (h : list (op * obs)) : list 
 Definition class_tables (h : list classdef) (c : nat) : ctab * ptab := tabs_nth (tables (roots ++ h)) c.
 
 Definition corr_codes (c : case) : list Z :=
-  let '(h, k, hist) := c in
-  let t := class_tables h k in
-  corr_hist (snd t) 0 (init_state (fst t)) hist.
+  let '(h1, k, pre, h2, cl, hist) := c in
+  let t1 := class_tables h1 k in
+  let t := tabs_nth (staged_tables (roots ++ h1) k (map fst pre) h2) cl in
+  corr_hist (snd t1) 0 (init_state (fst t1)) pre
+  ++ corr_hist (snd t) (Z.of_nat (length pre)) (init_state (fst t)) hist.
 
+(* the law knows nothing of caches: the class-level rule is that of the declarations *)
 Definition law_codes (c : case) : list Z :=
-  let '(h, k, hist) := c in law_hist (spec_rule h k) 0 l_init hist.
+  let '(h1, k, pre, h2, cl, hist) := c in
+  law_hist (spec_rule h1 k) 0 l_init pre
+  ++ law_hist (spec_rule (h1 ++ h2) cl) (Z.of_nat (length pre)) l_init hist.
